@@ -261,7 +261,8 @@ def plan(tier, seed, workdir):
         body += hgen.harness('scope', 'vi: int, gi: int, yi: int, xi: int, has_xx: bool', ['0 <= vi < 3', '0 <= gi < 3', '0 <= yi < 3', '0 <= xi < 2'],
                              core_call='core_scope(vi, gi, yi, xi, has_xx)')
         path = hgen.write_module(workdir, f'c04_scope_{name}', body)
-        hgen.ch_tasks(p, path, 'scope', timeout, family='locals vs globals', program=name, source=src)
+        hgen.ch_tasks(p, path, 'scope', timeout, family='locals vs globals', program=name, source=src,
+                      enum={'vi': [0, 1, 2], 'gi': [0, 1, 2], 'yi': [0, 1, 2], 'xi': [0, 1], 'has_xx': [False, True]})
     body = CORE_HOST.format(src=HOST_SRC)
     body += hgen.harness('host', 'host_len: bool, host_abs: bool, host_ff: bool, nn: int, host_none: bool', [], core_call='core_host(host_len, host_abs, host_ff, nn, host_none)')
     path = hgen.write_module(workdir, 'c04_host', body)
